@@ -43,6 +43,11 @@ def parseOp : List String → Option Sent
 def rxLine (block host : String) (replica prev : Nat) (sender : String) (elems : List String) : String :=
   " ".intercalate ([s!"rx", s!"{block}.{host}.{replica}", toString prev, sender] ++ elems)
 
+/-- how many of the frames with the given lengths lie completely inside the first `budget` bytes -/
+def completeFrames (budget : Nat) : List Nat → Nat
+  | [] => 0
+  | l :: ls => if l ≤ budget then 1 + completeFrames (budget - l) ls else 0
+
 def handle (c : Case) : Verdict :=
   match c.header with
   | [_, _, block, host, _prev] =>
@@ -68,12 +73,19 @@ def handle (c : Case) : Verdict :=
     let implRx := c.implOut.filter (·.startsWith "rx ")
     let wantRx := sent.map fun s => rxLine block host s.fr.replica s.fr.senderBlock s.sender s.elems
     let complete := cut.isNone || stream.length == full.length
+    -- spec side of the `cut` case (the `deframe_prefix` statement): with the frame lengths
+    -- `HEADER_SIZE + |payload|` known from the op lines, the number `j` of frames that lie completely
+    -- inside the first `stream.length` bytes is determined; exactly those must have been decoded, and
+    -- the stream must end in a clean end-of-stream iff fewer than `HEADER_SIZE` bytes are left over
+    let lens := sent.map fun s => Noir.Consts.HEADER_SIZE + s.fr.payload.length
+    let j := completeFrames stream.length lens
+    let used := (lens.take j).foldl (· + ·) 0
+    let leftover := stream.length - used
+    let wantLast := if leftover < Noir.Consts.HEADER_SIZE then "eof" else "panic:recv"
     let oracle :=
-      if complete then
-        if implRx != wantRx then some s!"received frames differ from sent frames: got {implRx.length} want {wantRx.length}"
-        else if c.implOut.getLast? != some "eof" then some "no clean end of stream"
-        else none
-      else if implRx != wantRx.take implRx.length then some "received frames are not a prefix of the sent frames"
+      if implRx.length < j then some s!"only {implRx.length} of the {j} complete frames before the cut were decoded"
+      else if implRx != wantRx.take j then some s!"received frames differ from the {j} complete frames that arrived (got {implRx.length})"
+      else if c.implOut.getLast? != some wantLast then some s!"stream must end with {wantLast}"
       else none
     let maxPayload := sent.foldl (fun m s => max m s.fr.payload.length) 0
     let dests := (sent.map (·.fr.replica)).eraseDups.length
